@@ -9,8 +9,8 @@ GROUP = "Sandbox"
 META = {
     "group": "Sandbox",
     "technique": "Coq proof over a Gallina model of SandboxJoin/withinRoot/resolveWithinSandbox (filepath.Clean/Join/Rel on segment lists, tree file system with links) + vm_compute correspondence with the real SandboxJoin on generated spellings and symlink layouts + regenerated call-site obligation over internal/runtime + Ego programs run by the real binary under a sandbox root",
-    "text": "C26_lexical (for every root and path spelling the chosen string is the cleaned root followed by plain names) is proved for all inputs; C26_resolved (for any arrangement of links the place the kernel reaches through the result lies below the real root) is proved over an abstract file system under five stated laws relating Lstat/EvalSymlinks/kernel resolution, which are validated on every generated layout against the tree model and the real kernel, not proved for the tree model; that every runtime function reaching the file system routes its path through SandboxJoin is a regenerated obligation plus runs of the real binary. partial: the file-system laws are assumed, database connection strings (sql.Open sqlite files) and settings/certificate files read by the runtime are outside the model, races with concurrent link changes are not modelled",
-    "note": "Trusted: Coq kernel; model of filepath.Clean/Join/Rel/Dir (Unix) as segment-list functions tied by the correspondence; tree model of kernel resolution / EvalSymlinks; the regex call-site scan; the overlay harness and the Python comparison. Fixed in /repo: json.ReadFile/json.WriteFile bypassed the sandbox; a dangling link let os.WriteFile create outside.",
+    "text": "C26_lexical (for every root and path spelling the chosen string is the cleaned root followed by plain names) is proved for all inputs; C26_resolved_tree is a closed theorem over the tree file-system model (directories, files, links with any target: absolute, relative, '..', dangling, cyclic; Lstat, EvalSymlinks and the kernel walk are one fuelled resolver with a stated budget of 400 steps, running out of budget being Lstat's 'other error'): for every tree, absolute root that resolves and path spelling, the place the kernel walk reaches through SandboxJoin's result lies at or below the real root - no file-system law is left as a hypothesis (C26_tree_laws proves the five laws of the abstract C26_resolved for every tree); C26_old_refuted / C26_v1_refuted are the two defects found and repaired (dangling link; Lstat giving up on a long link chain); the tree model is compared with the real SandboxJoin and the real kernel on generated layouts on every run; that every runtime function reaching the file system routes its path through SandboxJoin is a regenerated obligation plus runs of the real binary. partial: the model has one step budget where Linux has two link budgets (Lstat 40 links, EvalSymlinks 255) - layouts beyond 40 links are checked by the oracle on the real code only; database connection strings (sql.Open sqlite files) and settings/certificate files read by the runtime are outside the model; races with concurrent link changes are not modelled",
+    "note": "Trusted: Coq kernel; model of filepath.Clean/Join/Rel/Dir (Unix) as segment-list functions tied by the correspondence; tree model of kernel resolution / EvalSymlinks; the regex call-site scan; the overlay harness and the Python comparison. Fixed in /repo: json.ReadFile/json.WriteFile bypassed the sandbox; a dangling link let os.WriteFile create outside; a chain of more than 40 links let a path reach a link leaving the sandbox (found while proving the fifth law).",
 }
 
 FS_CALL = re.compile(r"\b(?:os|ioutil)\.(Open|OpenFile|ReadFile|WriteFile|Remove|RemoveAll|Mkdir|MkdirAll|MkdirTemp|ReadDir|Stat|Lstat|"
@@ -122,6 +122,20 @@ def gen_layout(rng, base, idx, regression=False, cyclic=True, nolinks=False):
         paths.append(p)
     return {"base": B, "root": root_sp, "real_root": sb, "out": out, "entries": [{"p": p, "k": k, "t": t} for p, k, t in ents],
             "paths": paths}
+
+
+def chain_layout(base, idx, n=42):
+    """A chain of n links inside the sandbox ending at a directory that holds a link leaving it.  Lstat through the chain
+    fails (ELOOP after 40 links) while EvalSymlinks (255) resolves it.  Oracle only: the model has one step budget for
+    both (see C26_v1_refuted for its own boundary case), so these queries are not compared with the model."""
+    B = os.path.join(base, "L%d" % idx)
+    sb, out = B + "/sb", B + "/out"
+    ents = [(sb, "d", ""), (out, "d", ""), (out + "/secret", "f", ""), (sb + "/d", "d", ""), (sb + "/d/x", "d", ""),
+            (sb + "/d/x/z", "l", out + "/secret"), (sb + "/d/y", "l", out)]
+    for i in range(n):
+        ents.append((sb + "/l%d" % i, "l", "l%d" % (i + 1) if i + 1 < n else "d"))
+    return {"base": B, "root": sb, "real_root": sb, "out": out, "entries": [{"p": p, "k": k, "t": t} for p, k, t in ents],
+            "paths": ["l0/x/z", "l0/x", "l0", "l0/y/secret", "l0/y/new", "l1/x/z", "l2/x/z", "l5/x/z", "l30/x/z", "l0/x/new", "d/x/z"], "nomodel": True}
 
 
 def coq_node(base_segs, entries):
@@ -347,13 +361,13 @@ def run(ck):
                       "absolute and link-crossing spellings; Ego programs: 20 file functions x the same spellings under the real binary. "
                       "distinct_nontrivial = distinct (layout, path) whose real result differs from the plain join of root and path "
                       "plus distinct lexical cases whose result is neither the root nor the plain join")
-    ck.assume("file-system laws of C26_resolved (root exists; EvalSymlinks yields an absolute cleaned fixed point that the kernel also reaches; "
-              "a name Lstat does not find is not reachable through the resolved parent) - validated per generated layout, not proved",
+    ck.assume("the tree model (kres with a 400-step budget shared by Lstat, EvalSymlinks and the kernel walk) describes the real file system - compared on every generated layout; "
+              "Linux's separate link budgets (40 / 255) are outside the model",
               "no concurrent change of links between SandboxJoin and the file operation",
               "sandbox root is absolute and configured (ego.runtime.sandbox.path non-empty)")
     ck.trusted("harness/C26/c26_test.go (in-package overlay), props/C26.py generators, call-site scan (regular expressions over internal/runtime) and comparison",
                "correspondence evaluated by vm_compute in generated cases files")
-    coq_ok = ck.coq_stage(GROUP, theorems=["C26_lexical", "C26_resolved", "C26_old_refuted"])
+    coq_ok = ck.coq_stage(GROUP, theorems=["C26_lexical", "C26_resolved", "C26_resolved_tree", "C26_tree_laws", "C26_old_refuted", "C26_v1_refuted"])
     found_escape = False
 
     # ---------------------------------------------------------------- T: call-site obligation
@@ -381,6 +395,7 @@ def run(ck):
     lex = gen_lex(ck.rng, 480 if quick else 5000, nx)
     nlay = 4 if quick else 40
     lays = [gen_layout(ck.rng, base, 0, regression=True)] + [gen_layout(ck.rng, base, i) for i in range(1, nlay)]
+    lays.append(chain_layout(base, 90))
     if ck.replay_file:
         rp = json.load(open(ck.replay_file))["replay"]
         if "layout" in rp:
@@ -449,6 +464,8 @@ def run(ck):
         L.append("Definition lbad (i : nat) (c : str * str * str) : list nat := let '(r, p, o) := c in if str_eqb (sandbox_join_lex r p) o then [] else [i].")
         exprs = {"LEX": "idx lbad 0 lexc"}
         for li, (l, obs) in enumerate(zip(lays, res["layouts"])):
+            if l.get("nomodel"):
+                continue
             bsegs = [s for s in l["base"].split("/") if s]
             L.append("Definition fs%d : node := %s." % (li, coq_node(bsegs, l["entries"])))
             L.append("Definition root%d : str := %s." % (li, vf.vstr(l["root"])))
@@ -458,7 +475,7 @@ def run(ck):
                                 for p, o in zip(l["paths"], obs)))
             L.append("].")
             L.append("""Definition rbad%d (i : nat) (c : str * str * option str) : list nat :=
-  let '(p, o, t) := c in if str_eqb (sandbox_join_t true fs%d root%d p) o then [] else [i].
+  let '(p, o, t) := c in if str_eqb (sandbox_join_t V2 fs%d root%d p) o then [] else [i].
 Definition tbad%d (i : nat) (c : str * str * option str) : list nat :=
   let '(p, o, t) := c in
   match touch_t fs%d (clean_str o), t with
@@ -469,8 +486,9 @@ Definition lawbad%d (i : nat) (c : str * str * option str) : list nat :=
   match evalsym_t fs%d cp with
   | Some r => (match evalsym_t fs%d r with Some r' => if path_eqb r r' then [] else [i] | None => [i] end) ++
               (match touch_t fs%d cp with Some q => if path_eqb q r then [] else [i] | None => [i] end) ++
-              (if lstat_t fs%d (fst cp, snd cp ++ [[122;122]]) then [] else
-               match touch_t fs%d (fst r, snd r ++ [[122;122]; [121]]) with None => [] | Some _ => [i] end)
+              (match lstat_t fs%d (fst cp, snd cp ++ [[122;122]]) with
+               | LNo => match touch_t fs%d (fst r, snd r ++ [[122;122]; [121]]) with None => [] | Some _ => [i] end
+               | _ => [] end)
   | None => [] end.""" % (li, li, li, li, li, li, li, li, li, li, li))
             exprs["R%d" % li] = "idx rbad%d 0 q%d" % (li, li)
             exprs["T%d" % li] = "idx tbad%d 0 q%d" % (li, li)
@@ -485,6 +503,8 @@ Definition lawbad%d (i : nat) (c : str * str * option str) : list nat :=
                     ck.violation("corr-lexical", "model/implementation disagree on SandboxJoin(%r, %r): real %r" % (lex[i][0], lex[i][1], lexr[i]),
                                  replay={"lex": list(lex[i])}, found_input=False)
                 for li, l in enumerate(lays):
+                    if l.get("nomodel"):
+                        continue
                     for key, what in (("R", "SandboxJoin result"), ("T", "place reached through the result"), ("W", "file-system law on the tree model")):
                         for i in resc["%s%d" % (key, li)][:3]:
                             o = res["layouts"][li][i]
